@@ -1,16 +1,13 @@
 #!/bin/bash
-# usage: SLOT=<slot> seed_collect.sh <ID> [extra check IDs...]   (SLOT defaults to ID)
-# copies the sub-agent's deliverables to /verif/seeded/<ID>/, runs the checks against the patch in a scratch copy
+# usage: seed_collect.sh <ID> [extra check IDs...]
+# runs the checks against /verif/seeded/<ID>/patch*.diff in scratch copies; result in seeded/<ID>/result.txt
 id=$1; shift
-src=/tmp/seed/${SLOT:-$id}/out; dst=/verif/seeded/$id
-mkdir -p $dst
-cp $src/patch.diff $src/meta.json $dst/ 2>/dev/null
-cp $src/demo.rs $src/DEMO.md $dst/ 2>/dev/null
-cp $src/patch2.diff $src/demo2.rs $dst/ 2>/dev/null
+dst=/verif/seeded/$id
 [ -f $dst/patch.diff ] || { echo "no patch for $id"; exit 1; }
+: > $dst/result.txt
 for p in $dst/patch.diff $dst/patch2.diff; do
   [ -f $p ] || continue
-  echo "== $p" >> $dst/result.txt
+  echo "== $(basename $p) checks: $id $*" >> $dst/result.txt
   /verif/tools/mutant.sh $p $id "$@" 2>&1 | grep -a "MUTANT-RESULT\|signature\|PATCH-FAILED\|BUILD-FAILED" | cut -c1-300 >> $dst/result.txt
 done
 cat $dst/result.txt
